@@ -36,7 +36,8 @@ import (
 )
 
 var (
-	errFinalDataAlreadyWritten = fmt.Errorf("final RPC response data already written: %w", context.Canceled)
+	errFinalDataAlreadyWritten       = fmt.Errorf("final RPC response data already written: %w", context.Canceled)
+	errCompressedFlagWithoutEncoding = errors.New("message is flagged as compressed but no compression encoding was declared")
 )
 
 // Transcoder is a Vanguard handler which acts like a router and a middleware. It transforms
@@ -764,6 +765,9 @@ func (o *operation) processRequestEnvelope(envBuf envelopeBytes) (msgLen int, co
 	if env.trailer {
 		return 0, false, malformedRequestError(errors.New("client stream cannot include status/trailer message"))
 	}
+	if env.compressed && o.client.reqCompression == nil {
+		return 0, false, malformedRequestError(errCompressedFlagWithoutEncoding)
+	}
 	if limit := o.methodConf.maxMsgBufferBytes; env.length > limit {
 		return 0, false, bufferLimitError(int64(limit))
 	}
@@ -919,6 +923,9 @@ func (r *envelopingReader) prepareNext() error {
 			return err
 		}
 		env, err = r.rw.op.clientEnveloper.decodeEnvelope(envBytes)
+		if err == nil && env.compressed && r.rw.op.client.reqCompression == nil {
+			err = errCompressedFlagWithoutEncoding
+		}
 		if err != nil {
 			err = malformedRequestError(err)
 			r.rw.reportError(err)
@@ -1482,6 +1489,9 @@ func (w *envelopingWriter) handleEnvelopeWritten() error {
 		return err
 	}
 	env, err := w.rw.op.serverEnveloper.decodeEnvelope(w.env)
+	if err == nil && env.compressed && w.rw.op.server.respCompression == nil {
+		err = errCompressedFlagWithoutEncoding
+	}
 	if err != nil {
 		err = malformedRequestError(err)
 		w.rw.reportError(err)
@@ -1704,6 +1714,9 @@ func (w *transformingWriter) Write(data []byte) (n int, err error) {
 			_, _ = w.buffer.Read(envBytes[:])
 			var err error
 			w.latestEnvelope, err = w.rw.op.serverEnveloper.decodeEnvelope(envBytes)
+			if err == nil && w.latestEnvelope.compressed && w.rw.op.server.respCompression == nil {
+				err = errCompressedFlagWithoutEncoding
+			}
 			if err != nil {
 				err = malformedRequestError(err)
 				w.rw.reportError(err)
